@@ -26,7 +26,14 @@ type Solver struct {
 	ctx      *Ctx
 	cmd      *exec.Cmd
 	in       io.WriteCloser
-	out      *bufio.Reader
+	lines    chan string
+	bin      string
+	args     []string
+	dead     bool
+	inited   bool
+	Restarts int
+	Unknowns int
+	LastError string
 	defined  map[int]bool
 	declVar  map[string]bool
 	declUF   map[string]bool
@@ -41,35 +48,91 @@ type Solver struct {
 }
 
 func NewSolver(ctx *Ctx, bin string, args ...string) (*Solver, error) {
-	cmd := exec.Command(bin, args...)
+	s := &Solver{ctx: ctx, bin: bin, args: args}
+	if err := s.start(); err != nil {
+		return nil, err
+	}
+	return s, nil
+}
+
+// start launches a fresh solver process and forgets everything that was defined in the old one.
+func (s *Solver) start() error {
+	cmd := exec.Command(s.bin, s.args...)
 	in, err := cmd.StdinPipe()
 	if err != nil {
-		return nil, err
+		return err
 	}
 	outp, err := cmd.StdoutPipe()
 	if err != nil {
-		return nil, err
+		return err
 	}
 	cmd.Stderr = cmd.Stdout
 	if err := cmd.Start(); err != nil {
-		return nil, err
+		return err
 	}
-	s := &Solver{ctx: ctx, cmd: cmd, in: in, out: bufio.NewReader(outp), defined: map[int]bool{}, declVar: map[string]bool{}, declUF: map[string]bool{}}
-	return s, nil
+	s.cmd, s.in = cmd, in
+	s.defined, s.declVar, s.declUF = map[int]bool{}, map[string]bool{}, map[string]bool{}
+	s.stack = nil
+	s.dead = false
+	lines := make(chan string, 64)
+	s.lines = lines
+	go func() {
+		r := bufio.NewReader(outp)
+		for {
+			line, err := r.ReadString('\n')
+			if err != nil {
+				lines <- "(error \"solver died: " + err.Error() + "\")"
+				close(lines)
+				return
+			}
+			lines <- strings.TrimSpace(line)
+		}
+	}()
+	return nil
 }
 
 // Init sends the option prologue (after Log has been set, so that logs are self-contained).
 func (s *Solver) Init() {
+	s.inited = true
 	s.send("(set-option :print-success false)")
 	s.send("(set-option :produce-models true)")
 	s.send("(set-option :global-declarations true)")
-	if s.TimeoutS > 0 {
+	if s.TimeoutS > 0 && strings.Contains(s.bin, "z3") {
 		s.send(fmt.Sprintf("(set-option :timeout %d)", s.TimeoutS*1000))
 	}
 	s.send("(set-logic QF_UFBV)")
 }
 
-func (s *Solver) Close() { s.in.Close(); s.cmd.Wait() }
+func (s *Solver) Close() {
+	if s.cmd == nil {
+		return
+	}
+	s.in.Close()
+	done := make(chan struct{})
+	go func() { s.cmd.Wait(); close(done) }()
+	select {
+	case <-done:
+	case <-time.After(2 * time.Second):
+		s.cmd.Process.Kill()
+		<-done
+	}
+}
+
+// restart kills a stuck or dead solver process; the next query starts from a clean process.
+func (s *Solver) restart() {
+	s.Restarts++
+	if s.cmd != nil && s.cmd.Process != nil {
+		s.cmd.Process.Kill()
+		go s.cmd.Wait()
+	}
+	if err := s.start(); err != nil {
+		s.dead = true
+		return
+	}
+	if s.inited {
+		s.Init()
+	}
+}
 
 func (s *Solver) send(line string) {
 	if s.Log != nil {
@@ -103,12 +166,27 @@ func (s *Solver) define(t *Term) {
 	s.send(fmt.Sprintf("(define-fun t%d () %s %s)", t.ID, sortOf(t.W), t.body()))
 }
 
+// readLine waits for one answer line; a solver that stays silent past its own timeout plus a grace
+// period is killed and restarted (the answer then counts as unknown).
 func (s *Solver) readLine() string {
-	line, err := s.out.ReadString('\n')
-	if err != nil {
-		return "(error \"solver died: " + err.Error() + "\")"
+	limit := time.Duration(s.TimeoutS+20) * time.Second
+	if s.TimeoutS == 0 {
+		limit = 10 * time.Minute
 	}
-	return strings.TrimSpace(line)
+	select {
+	case line, ok := <-s.lines:
+		if !ok {
+			s.restart()
+			return "(error \"solver died\")"
+		}
+		if strings.HasPrefix(line, "(error \"solver died") {
+			s.restart()
+		}
+		return line
+	case <-time.After(limit):
+		s.restart()
+		return "(error \"watchdog timeout\")"
+	}
 }
 
 // Check decides satisfiability of the conjunction. If want is non-empty and the result is Sat,
@@ -135,6 +213,7 @@ func (s *Solver) Check(asserts []*Term, want []*Term) (Result, map[*Term]uint64)
 		s.send("(assert " + a.ref() + ")")
 	}
 	s.send("(check-sat)")
+	r0 := s.Restarts
 	ans := s.readLine()
 	var res Result
 	switch ans {
@@ -142,11 +221,17 @@ func (s *Solver) Check(asserts []*Term, want []*Term) (Result, map[*Term]uint64)
 		res = Sat
 	case "unsat":
 		res = Unsat
-	default:
+	case "unknown":
 		res = Unknown
-		if strings.HasPrefix(ans, "(error") {
-			fmt.Println("SOLVER ERROR:", ans)
+		s.Unknowns++
+	default:
+		// error line, watchdog or dead process: the process state is unreliable, start clean
+		s.Unknowns++
+		s.LastError = ans
+		if s.Restarts == r0 {
+			s.restart()
 		}
+		return Unknown, nil
 	}
 	var model map[*Term]uint64
 	if res == Sat && len(want) > 0 {
@@ -159,6 +244,9 @@ func (s *Solver) Check(asserts []*Term, want []*Term) (Result, map[*Term]uint64)
 			s.send("(get-value (" + w.ref() + "))")
 			// answer: ((name value))
 			txt := s.readLine()
+			if s.Restarts != r0 {
+				return Unknown, nil
+			}
 			for strings.Count(txt, "(") > strings.Count(txt, ")") {
 				txt += " " + s.readLine()
 			}
@@ -247,6 +335,7 @@ func (s *Solver) CheckPC(pc []*Term, extra *Term, want []*Term) (Result, map[*Te
 	}
 	s.send("(check-sat)")
 	tq := time.Now()
+	r0 := s.Restarts
 	ans := s.readLine()
 	if d := time.Since(tq); d > 150*time.Millisecond {
 		s.Slow++
@@ -258,9 +347,16 @@ func (s *Solver) CheckPC(pc []*Term, extra *Term, want []*Term) (Result, map[*Te
 		res = Sat
 	case "unsat":
 		res = Unsat
-	default:
+	case "unknown":
 		res = Unknown
-		fmt.Println("SOLVER:", ans)
+		s.Unknowns++
+	default:
+		s.Unknowns++
+		s.LastError = ans
+		if s.Restarts == r0 {
+			s.restart()
+		}
+		return Unknown, nil
 	}
 	var model map[*Term]uint64
 	if res == Sat && len(want) > 0 {
@@ -272,6 +368,9 @@ func (s *Solver) CheckPC(pc []*Term, extra *Term, want []*Term) (Result, map[*Te
 			}
 			s.send("(get-value (" + w.ref() + "))")
 			txt := s.readLine()
+			if s.Restarts != r0 {
+				return Unknown, nil
+			}
 			for strings.Count(txt, "(") > strings.Count(txt, ")") {
 				txt += " " + s.readLine()
 			}
